@@ -44,6 +44,7 @@ def run(ctx):
     rule_search(ctx)
     rule_courses(ctx)
     rule_layout(ctx)
+    rule_tab_container(ctx)
     rule_tab_bar(ctx)
     rule_tab_edges(ctx)
     rule_tab_composition(ctx)
@@ -572,6 +573,50 @@ def rule_tab_edges(ctx):
         ctx.check(ok, R, "from_Note[hint: %s]" % label, fn.where(), "tablature.from_Note(<note with string/fret hint: %s>)" % label,
                   "a playable note whose string / fret attributes do not fit this tuning gives %s; only a note without any fingering is an error" % [
                       (p.kind, short(repr(p.value), 50)) for p in paths])
+
+
+def rule_tab_container(ctx):
+    """from_NoteContainer (and from_Note through it): equally long lines, one per string, and the fret numbers read off the
+    lines are the fingering -- at every width, odd and even leftovers alike, one- and two-digit frets."""
+    R = "R-C20-T"
+    repo = ctx.repo
+    mod = repo.mod(TB)
+    f = mod.func("from_NoteContainer")
+    ctx.touch(f)
+    nci = repo.mod(NC).cls("NoteContainer")
+    strings = [note_stub(repo, "E", pitch=40), note_stub(repo, "A", pitch=45), note_stub(repo, "d", pitch=50), note_stub(repo, "g", pitch=55)]
+    key = "%s.StringTuning.find_fingering" % TU
+    for flabel, fingering in (("one digit", [(0, 3), (2, 5)]), ("two digits", [(0, 10), (1, 12), (3, 7)]), ("open and high", [(1, 0), (3, 14)])):
+        summ = base_summaries(repo)
+        summ[key] = lambda it, a, k, n, fingering=fingering: [list(fingering)]
+        bad, n = None, 0
+        for width in range(24, 36) if ctx.tier != "thorough" else range(20, 81):
+            try:
+                paths = run_method(repo, f, lambda: [AObj(nci, {"notes": [note_stub(repo, "n%d" % i) for i in range(len(fingering))]}, name="cont"), width, tuning_obj(repo, strings)], summaries=summ, max_depth=30)
+            except CannotDecide as e:
+                raise AnalysisError("tablature.from_NoteContainer(width=%d): %s" % (width, e))
+            n += 1
+            if len(paths) != 1 or paths[0].kind != "return" or not isinstance(paths[0].value, str):
+                bad = "width %d: outcome %s" % (width, [(p.kind, short(repr(p.value), 60)) for p in paths])
+                break
+            lines = paths[0].value.split("\n")
+            if len(lines) != len(strings):
+                bad = "width %d: %d lines for %d strings" % (width, len(lines), len(strings))
+                break
+            if len({len(x) for x in lines}) != 1:
+                bad = "width %d: the lines are %s characters long -- they must be equally long" % (width, [len(x) for x in lines])
+                break
+            got = []
+            for li, line in enumerate(lines):
+                string = len(strings) - 1 - li
+                body = line[line.find("||") + 2:]
+                digits = "".join(c for c in body if c.isdigit())
+                if digits:
+                    got.append((string, int(digits)))
+            if sorted(got) != sorted(fingering):
+                bad = "width %d: the fret numbers on the lines read %s, the fingering is %s" % (width, sorted(got), sorted(fingering))
+                break
+        ctx.check(bad is None, R, "from_NoteContainer[%s]" % flabel, f.where(), "tablature.from_NoteContainer(<%s>, width) for %d widths" % (flabel, n), bad or "")
 
 
 def rule_tab_bar(ctx):
